@@ -266,6 +266,8 @@ def _run_check(prop, tier, seed, replay, t0, violations, known_lines):
         io, mo = _evaluate(prop, [cand])
         return judge(prop, cand, io[0], mo[0])
 
+    # failing inputs of the property itself (intrinsic oracle) are reported before mere model/implementation differences
+    failures.sort(key=lambda f: 0 if f[3].startswith('oracle:') else 1)
     reported = 0
     for c, io, mo, r in failures:
         kf = None
